@@ -105,6 +105,13 @@ fn token_faults(text: &str, toks: &[(usize, usize, TK)], i: usize) -> Vec<(Strin
             }
         }
     }
+    // long tokens whose multi-byte character straddles byte offsets 20..34 (fixed-size prefixes, keyword-length cut-offs)
+    if k == TK::Word && i % 4 == 0 {
+        for l in 20..34usize {
+            v.push((format!("tok{}:replace(long-name-{}+nonascii)", i, l), rep(&format!("{}{}", "a".repeat(l), NONASCII[l % 3]))));
+        }
+        v.push((format!("tok{}:replace(cjk-word)", i), rep("日本語日本語日本語日本語日本語")));
+    }
     // a non-ASCII comment line in front of this token (shifts every later position)
     v.push((format!("tok{}:nonascii-comment-before", i), format!("{}# {} \n{}", &text[..s], NONASCII[i % NONASCII.len()], &text[s..])));
     v
@@ -268,6 +275,9 @@ impl Check for C11 {
                 cases.push(("scale:many-propdefs".into(), rep("VERSION 5.8 ;\nPROPERTYDEFINITIONS\n", &|i| format!("MACRO p{} INTEGER ;\n", i), "END PROPERTYDEFINITIONS\n")));
                 cases.push(("scale:one-extension-many-tokens".into(), rep("VERSION 5.8 ;\nBEGINEXT \"x\" ", &|i| format!("t{} ", i), "ENDEXT\n")));
                 cases.push(("scale:one-density-many-rects".into(), rep("VERSION 5.8 ;\nMACRO m\nDENSITY\nLAYER m1 ;\n", &|i| format!("RECT {} 0 {} 1 0.5 ;\n", i, i + 1), "END\nEND m\n")));
+                cases.push(("scale:many-blank-lines".into(), format!("VERSION 5.8 ;{}\nMACRO m\nEND m\n", "\n".repeat(400_000)).into_bytes()));
+                cases.push(("scale:many-comment-lines".into(), format!("VERSION 5.8 ;\n{}MACRO m\nEND m\n", "# c\n".repeat(200_000)).into_bytes()));
+                cases.push(("scale:many-spaces-and-tabs".into(), format!("VERSION 5.8 ;{}MACRO m\nEND m\n", " \t".repeat(300_000)).into_bytes()));
                 cases.push(("scale:symmetry-many".into(), rep("VERSION 5.8 ;\nMACRO m\nSYMMETRY ", &|_| "X Y R90 ".to_string(), ";\nEND m\n")));
             }
             for (label, bytes) in &cases {
